@@ -246,6 +246,14 @@ def rules(rep, m):
         else:
             r4.ok()
 
+    # R-C05-5 ------------------------------------------------------------
+    r5 = rep.rule("R-C05-5", "a waiter that is resumed with another code than success does not take the resource: in acquire "
+                  "every path after the guard wait that can be taken with such a code returns that code (shared with "
+                  "R-C04-10) - a swallowed preemption notice leaves its victim acting as the holder of what it lost", floor=1)
+    from . import c04
+    c04.wait_result_rule(rep, r5, m, only={"cmb_resource_acquire", "cmb_resource_preempt"})
+
+
 
 def run(tier="quick"):
     models = common.load_models(tier)
